@@ -87,8 +87,8 @@ Section Report.
     reports n s (delete_dependencies rr s id now).
   Proof.
     intros Hf Hne. unfold delete_dependencies.
-    pose proof (search_state_noexp_state rr s (dw_pattern id) now Hne) as Hs.
-    destruct (search_state rr s (dw_pattern id) now) as [s1 o]. cbn [fst] in Hs. subst s1.
+    pose proof (search_state_noexp_state s (dw_pattern id) now Hne) as Hs.
+    destruct (search_state s (dw_pattern id) now) as [s1 o]. cbn [fst] in Hs. subst s1.
     destruct o as [found|e|w|].
     - apply rem_list_rep; assumption.
     - intros _. cbn [snd]. eauto.
@@ -128,21 +128,36 @@ Proof. apply rem_fuel_rep. Qed.
 Lemma st_Rem_reports s id now n : st_fail s = Some n -> no_expired s now ->
   reports n s (st_Rem s id now).
 Proof.
-  intros Hf Hne. unfold st_Rem. destruct (st_hooks s); [|apply st_rem_reports; assumption].
-  pose proof (st_get_noexp s id now Hne) as Hg.
-  destruct (st_get s id now) as [s1 o]. cbn [fst] in Hg. subst s1.
-  destruct o as [f|e|w|].
-  - apply st_rem_reports; assumption.
-  - intros _. cbn [snd]. eauto.
-  - intros Hr. cbn [fst] in Hr. lia.
-  - intros Hr. cbn [fst] in Hr. lia.
+  intros Hf Hne. unfold st_Rem.
+  (* nothing is expired: the purges only empty the list of noted ids *)
+  assert (Hwrap : forall s0 (r : state * outcome bool),
+            Sub s0 (fst r) -> no_expired s0 now -> st_calls s0 = st_calls s ->
+            reports n s0 r -> reports n s (with_purge r now)).
+  { intros s0 r HS Hne0 Hc Hrep.
+    rewrite (with_purge_noexp r now (Sub_no_expired _ _ _ HS Hne0)).
+    unfold reports in *. cbn [fst snd st_calls set_pending]. rewrite <- Hc. exact Hrep. }
+  destruct (st_hooks s).
+  - unfold st_get. rewrite (with_purge_noexp (get_body s id now) now)
+      by (rewrite (get_body_noexp s id now Hne); exact Hne).
+    rewrite (get_body_noexp s id now Hne). cbn [fst snd].
+    assert (Hne' : no_expired (set_pending s []) now) by exact Hne.
+    destruct (snd (get_body s id now)) as [f|e|w|].
+    + apply (Hwrap (set_pending s [])); [apply st_rem_Sub|exact Hne'|reflexivity|].
+      apply st_rem_reports; assumption.
+    + apply (Hwrap (set_pending s [])); [apply Sub_refl|exact Hne'|reflexivity|].
+      intros _. cbn [snd]. eauto.
+    + apply (Hwrap (set_pending s [])); [apply Sub_refl|exact Hne'|reflexivity|].
+      intros Hr. cbn [fst st_calls set_pending] in Hr. lia.
+    + apply (Hwrap (set_pending s [])); [apply Sub_refl|exact Hne'|reflexivity|].
+      intros Hr. cbn [fst st_calls set_pending] in Hr. lia.
+  - apply (Hwrap s); [apply st_rem_Sub|exact Hne|reflexivity|].
+    apply st_rem_reports; assumption.
 Qed.
 
-(** Reads of the INDEXED state purge expired facts and swallow the storage
-    errors of the purge (IndexedState.search / doFindRules log the error of
-    [expire] and count the item as expired): call 1 fails inside this Rem (it
-    is the purge of the expired dependent "a", met by the search of the
-    dependents of "b"), and Rem still answers Ok. *)
+(** The purge that ends an operation logs the storage errors of its removals
+    and drops them (both state kinds, after the repair of D52): call 1 fails
+    inside this Rem (it is the purge of the expired dependent "a", noted by the
+    search of the dependents of "b"), and Rem still answers Ok. *)
 Definition swallow_fact : json := JObj [("deleteWith", JArr [JStr "b"]); ("expires", JNum 5)].
 
 Definition swallow_state : state :=
@@ -163,32 +178,55 @@ Lemma purge_errors_swallowed_example :
   st_calls (fst (st_search swallow_state (dw_pattern "b") 10)) = 2%nat.
 Proof. vm_compute. repeat split; reflexivity. Qed.
 
-(** The LINEAR state reports them: LinearState.search / doFindRules return the
-    error of [expire] at once, so the Rem (through deleteDependencies), the
-    search and the rule lookup that meet the failing purge answer with the
-    storage's error; the expired fact stays where it was (LinearState.rem
-    gives up before touching the memory). *)
+(** The LINEAR state no longer reports them either (before the repair of
+    D52 LinearState.search / doFindRules returned the error of [expire] at
+    once): the Rem (through deleteDependencies), the search, the rule lookup
+    and the Get that meet the expired item answer as if it were not there; its
+    failed purge leaves it where it was (LinearState.rem gives up before
+    touching the memory), to be purged by a later read. *)
 Definition report_state : state :=
-  mkState Linear [("a", swallow_fact)] [] pn_empty [("a", swallow_fact)] false 0 (Some 1%nat) false.
+  mkState Linear [("a", swallow_fact)] [] pn_empty [("a", swallow_fact)] false 0 (Some 1%nat) false [].
 
 Definition report_rule_state : state :=
   let r := JObj [("expires", JNum 5); ("rule", JObj [("when", JObj [("pattern", JObj [])])])] in
-  mkState Linear [("r", r)] [] pn_empty [("r", r)] false 0 (Some 0%nat) false.
+  mkState Linear [("r", r)] [] pn_empty [("r", r)] false 0 (Some 0%nat) false [].
 
-Lemma purge_errors_reported_linear_example :
+Lemma purge_errors_dropped_linear_example :
   st_calls (fst (st_Rem report_state "b" 10)) = 2%nat /\
-  snd (st_Rem report_state "b" 10) = Err "storage" /\
+  snd (st_Rem report_state "b" 10) = Ok false /\
   st_facts (fst (st_Rem report_state "b" 10)) = st_facts report_state /\
   st_store (fst (st_Rem report_state "b" 10)) = st_store report_state /\
-  snd (st_search (set_fail report_state (Some 0%nat)) (JObj []) 10) = Err "storage" /\
+  snd (st_search (set_fail report_state (Some 0%nat)) (JObj []) 10) = Ok [] /\
   st_calls (fst (st_search (set_fail report_state (Some 0%nat)) (JObj []) 10)) = 1%nat /\
   st_facts (fst (st_search (set_fail report_state (Some 0%nat)) (JObj []) 10)) = st_facts report_state /\
-  snd (st_find_rules report_rule_state (JObj []) 10) = Err "storage" /\
+  snd (st_find_rules report_rule_state (JObj []) 10) = Ok [] /\
   st_facts (fst (st_find_rules report_rule_state (JObj []) 10)) = st_facts report_rule_state /\
-  (* the same rule lookup on the indexed kind answers Ok (no candidate) *)
+  snd (st_get (set_fail report_state (Some 0%nat)) "a" 10) = Err "notfound" /\
+  st_facts (fst (st_get (set_fail report_state (Some 0%nat)) "a" 10)) = st_facts report_state /\
+  (* the same rule lookup on the indexed kind *)
   snd (st_find_rules (set_fail (fst (st_add (empty_state Indexed false) "r"
                         (JObj [("expires", JNum 5); ("rule", JObj [("when", JObj [("pattern", JObj [])])])])
                         0 "r" None)) (Some 1%nat)) (JObj []) 10) = Ok [].
+Proof. vm_compute. repeat split; reflexivity. Qed.
+
+(** Why [purged_once_seen] no longer has the alternative hypothesis "or the
+    removal of the item (alone) succeeds": the purge that ends the Get removes
+    EVERY noted id, so another removal can take the storage call that works
+    and leave the failing one to this item.  Here "b" is already noted, call
+    1 fails: the removal of "a" alone succeeds (it uses call 0), but inside
+    the Get it comes second and fails after the item has left the memory
+    (indexed state): the record stays in the storage. *)
+Definition noted_fail_state : state :=
+  let x := JObj [("expires", JNum 5)] in
+  mkState Indexed [("a", x); ("b", x)] [] pn_empty [("a", x); ("b", x)] false 0 (Some 1%nat) false ["b"].
+
+Lemma purged_once_seen_alone_counterexample :
+  alookup "a" (st_facts noted_fail_state) = Some (JObj [("expires", JNum 5)]) /\
+  fact_expired (JObj [("expires", JNum 5)]) 10 = true /\
+  snd (st_rem noted_fail_state "a" 10) = Ok true /\
+  snd (st_get noted_fail_state "a" 10) = Err "notfound" /\
+  alookup "a" (st_facts (fst (st_get noted_fail_state "a" 10))) = None /\
+  alookup "a" (st_store (fst (st_get noted_fail_state "a" 10))) = Some (JObj [("expires", JNum 5)]).
 Proof. vm_compute. repeat split; reflexivity. Qed.
 
 (** * A5: crash containment *)
